@@ -1555,7 +1555,10 @@ class SymbolicDim(_protocols.SymbolicDimProtocol, _display.PrettyPrintable):
         if isinstance(other, SymbolicDim):
             if other._value is None:
                 return SymbolicDim(None)
-            return SymbolicDim(sympy.sympify(self._expr // other._expr))
+            # Not ``self._expr // other._expr``: when the divisor has simplified to a SymPy
+            # Integer, SymPy dispatches to Integer.__rfloordiv__, which truncates a Rational
+            # dividend first (Rational(1, 3) // Integer(-1) gives 0 instead of -1).
+            return SymbolicDim(sympy.floor(self._expr / other._expr))
         return NotImplemented
 
     def __truediv__(self, other: int | SymbolicDim) -> SymbolicDim:
